@@ -1,5 +1,6 @@
 (* C16 - Every option has its documented effect and is otherwise neutral: the generated option table. *)
 From Verif Require Import Lib.Base Model.Cfg Gen.Tables Gen.Options Proofs.OptionTable.
+From Verif Require Model.Url Model.Canon Proofs.MachineInv Proofs.CanonTotal.
 
 (* each public option constructor writes exactly the documented field of the default options (regenerated from /repo) *)
 Theorem C16_option_fields : option_table_ok.
@@ -114,3 +115,28 @@ Print Assumptions C16_skip_equals.
 Theorem C16_skip_equals_parser_neutral : forall idna_raw c b x, Parse idna_raw (with_skipEq c b) x = Parse idna_raw c x.
 Proof. exact skipEq_Parse. Qed.
 Print Assumptions C16_skip_equals_parser_neutral.
+
+(* the removal options on what a profile returns: no credentials, no port, no fragment (Proofs/CanonTotal.v). The
+   premises are those of the record invariant (H3 on the oracle, cfg_okm: no lax host parsing / host functions,
+   no fail-on-validation-error); without the invariant of parsed URLs the port and user-info claims are false
+   (CanonTotal.removePort_wf_refuted, removeUserInfo_wf_refuted: a hostless record, never produced by a parse) *)
+Theorem C16_removals : forall idna_raw p x u',
+  Verif.Proofs.MachineInv.H3 idna_raw -> Verif.Proofs.MachineInv.cfg_okm (p_cfg p) = true -> c_fail (p_cfg p) = false ->
+  Verif.Model.Canon.ProfileParse idna_raw p x = Verif.Model.Canon.CUrl u' ->
+  (p_removeUserInfo p = true -> Verif.Model.Url.Username u' = [] /\ Verif.Model.Url.Password u' = []) /\
+  (p_removePort p = true -> Verif.Model.Url.Port u' = []) /\
+  (p_removeFragment p = true -> Verif.Model.Url.Hash u' = []).
+Proof. exact Verif.Proofs.CanonTotal.ProfileParse_removals. Qed.
+Print Assumptions C16_removals.
+
+Theorem C16_remove_fragment_unconditional : forall idna_raw p u u',
+  p_removeFragment p = true -> Verif.Model.Canon.Canonicalize idna_raw p u = Some u' ->
+  Verif.Model.Url.u_fragment u' = None /\ Verif.Model.Url.Hash u' = [].
+Proof. exact Verif.Proofs.CanonTotal.removeFragment_spec. Qed.
+Print Assumptions C16_remove_fragment_unconditional.
+
+(* no canonicalization step changes the scheme *)
+Theorem C16_canonicalize_keeps_scheme : forall idna_raw p u u',
+  Verif.Model.Canon.Canonicalize idna_raw p u = Some u' -> Verif.Model.Url.u_scheme u' = Verif.Model.Url.u_scheme u.
+Proof. exact Verif.Proofs.CanonTotal.Canonicalize_scheme. Qed.
+Print Assumptions C16_canonicalize_keeps_scheme.
